@@ -25,6 +25,51 @@ type c02Rule struct {
 	Pat    string    `json:"pat"` // relative to the policy's namespace
 	Caps   []string  `json:"caps"`
 	Expire time.Time `json:"expiration,omitempty"` // zero: permanent. Whole seconds (documented per-path expiration).
+	// Legacy: the old-style `policy = "deny|read|write|sudo"` keyword of the stanza ("" = absent). It
+	// stands for a capability set (deny; read+list; create+read+update+delete+list; the same + sudo)
+	// that is added to the capabilities list.
+	Legacy string `json:"legacy_policy_keyword,omitempty"`
+}
+
+// eff: the capabilities a stanza grants. The list is a set: order and repetitions do not matter,
+// the legacy keyword adds its set, and "deny" anywhere in it means the stanza denies everything
+// (concepts/policies.mdx: deny "always takes precedence regardless of any other defined capabilities").
+func (r c02Rule) eff() []string {
+	set := map[string]bool{}
+	for _, c := range r.Caps {
+		set[c] = true
+	}
+	switch r.Legacy {
+	case "deny":
+		set["deny"] = true
+	case "sudo":
+		set["sudo"] = true
+		fallthrough
+	case "write":
+		set["create"], set["update"], set["delete"] = true, true, true
+		fallthrough
+	case "read":
+		set["read"], set["list"] = true, true
+	}
+	if set["deny"] {
+		return []string{"deny"}
+	}
+	return c02SortedKeys(set)
+}
+
+// listsDenyWithOthers: the stanza names deny together with something else.
+func (r c02Rule) listsDenyWithOthers() bool {
+	e := r.eff()
+	if len(e) != 1 || e[0] != "deny" {
+		return false
+	}
+	n := 0
+	for _, c := range r.Caps {
+		if c != "deny" {
+			n++
+		}
+	}
+	return n > 0 || (r.Legacy != "" && r.Legacy != "deny")
 }
 
 // c02ExpiryMargin: the reference does not decide within this distance of a path's
@@ -58,11 +103,17 @@ func (p *c02Policy) HCL() string {
 		for i, c := range r.Caps {
 			q[i] = fmt.Sprintf("%q", c)
 		}
-		if r.Expire.IsZero() {
-			fmt.Fprintf(&b, "path %q { capabilities = [%s] }\n", r.Pat, strings.Join(q, ","))
-		} else {
-			fmt.Fprintf(&b, "path %q {\n  capabilities = [%s]\n  expiration = %q\n}\n", r.Pat, strings.Join(q, ","), r.Expire.UTC().Format(time.RFC3339))
+		fmt.Fprintf(&b, "path %q {\n", r.Pat)
+		if r.Legacy != "" {
+			fmt.Fprintf(&b, "  policy = %q\n", r.Legacy)
 		}
+		if len(r.Caps) > 0 || r.Legacy == "" {
+			fmt.Fprintf(&b, "  capabilities = [%s]\n", strings.Join(q, ","))
+		}
+		if !r.Expire.IsZero() {
+			fmt.Fprintf(&b, "  expiration = %q\n", r.Expire.UTC().Format(time.RFC3339))
+		}
+		b.WriteString("}\n")
 	}
 	return b.String()
 }
@@ -485,7 +536,7 @@ func (w *c02World) rulesFor(t *c02Tok, now time.Time) (out, withExpired map[stri
 				}
 			}
 			abs := p.NS + pat
-			add(withExpired, abs, r.Caps)
+			add(withExpired, abs, r.eff())
 			if !r.Expire.IsZero() {
 				timed[abs] = true
 				d := now.Sub(r.Expire)
@@ -496,7 +547,7 @@ func (w *c02World) rulesFor(t *c02Tok, now time.Time) (out, withExpired map[stri
 					continue
 				}
 			}
-			add(out, abs, r.Caps)
+			add(out, abs, r.eff())
 		}
 	}
 	return out, withExpired, timed, ambiguous
